@@ -337,11 +337,11 @@ def r7(ctx, prog, eng, ctxs):
 def run(ctx):
     prog = extract(SCOPE)
     eng, ctxs, anyf, loopf = setup(prog)
-    r1(ctx, prog, eng, ctxs)
-    r2(ctx, prog, eng)
-    r3(ctx, prog, eng)
-    r4(ctx, prog, eng)
-    r5(ctx, prog, eng)
-    r6(ctx, prog, eng)
-    r7(ctx, prog, eng, ctxs)
+    ctx.guard(r1, ctx, prog, eng, ctxs)
+    ctx.guard(r2, ctx, prog, eng)
+    ctx.guard(r3, ctx, prog, eng)
+    ctx.guard(r4, ctx, prog, eng)
+    ctx.guard(r5, ctx, prog, eng)
+    ctx.guard(r6, ctx, prog, eng)
+    ctx.guard(r7, ctx, prog, eng, ctxs)
     return prog
